@@ -214,6 +214,10 @@ func (m *Module) AssignModuleID(wasm []byte, listeners []experimental.FunctionLi
 	// Write the flag of ensureTermination to the checksum.
 	m.ID[0] = boolToByte(withEnsureTermination)
 	h.Write(m.ID[:1])
+	// Write whether the source information is kept (RuntimeConfig.WithDebugInfoEnabled on a binary with DWARF
+	// sections): the compiled module then also has the source map, and the error messages the source lines.
+	m.ID[0] = boolToByte(m.DWARFLines != nil)
+	h.Write(m.ID[:1])
 	// Get checksum by passing the slice underlying m.ID.
 	h.Sum(m.ID[:0])
 }
